@@ -7,6 +7,7 @@ import (
 	"encoding/json"
 	"errors"
 	"fmt"
+	"math/big"
 	"os"
 	"strings"
 
@@ -804,15 +805,28 @@ func runCase(c Case) vh.Record {
 	return vh.Record{Case: vh.MustJSON(c), Coq: term, Obs: obsStr, Tags: tl, Nontrivial: nontrivial}
 }
 
+// zlist packs a register vector into one number: zig-zag of every component, 16 bits each, a leading 1
+// (the same packing is applied to the model's vector in coq/C03/Run.v).
 func zlist(v []int) string {
-	var xs []string
-	for _, x := range v {
-		xs = append(xs, vh.CoqZ(int64(x)))
+	acc := big.NewInt(1)
+	for i := len(v) - 1; i >= 0; i-- {
+		z := v[i]
+		var u int
+		if z >= 0 {
+			u = 2 * z
+		} else {
+			u = -2*z - 1
+		}
+		if u > 65535 {
+			u = 65535
+		}
+		acc.Mul(acc, big.NewInt(65536))
+		acc.Add(acc, big.NewInt(int64(u)))
 	}
-	return vh.CoqList(xs)
+	return acc.String() + "%N"
 }
 
-const failTerm = "mkCase None [] [] [mkObs 9%N [] [] []] true"
+const failTerm = "mkCase None [] [] [mkObs 9%N 0%N [] []] true"
 
 func main() {
 	m := vh.ParseArgs()
